@@ -214,3 +214,39 @@ func ruleStickyState(p *Prog, r *Report, prop string, pkgs map[string]bool, floo
 	}
 	r.floor("R-S", "sticky variables in scope of "+prop, n, floor)
 }
+
+// ruleCutsetMisuse: R-T.  strings.Trim/TrimLeft/TrimRight take a *set of
+// characters*; a constant cutset of two or more characters that contains a
+// letter or digit is a suffix/prefix mistaken for a set ("/32" strips every
+// trailing '/', '3' and '2': 10.1.1.2 and 10.1.1.3 become equal).
+func ruleCutsetMisuse(p *Prog, r *Report, pkgs map[string]bool) {
+	r.rule("R-T", "Normalisers do not mistake a character set for a suffix: every call of strings/bytes Trim, TrimLeft, TrimRight in this property's packages has a constant cutset that is a single character or consists of white space / punctuation only; a multi-character cutset containing letters or digits (e.g. TrimRight(v, \"/32\")) removes more than the intended suffix and makes different values compare equal.")
+	n := 0
+	for _, fn := range allModFuncs(p) {
+		if fn.Synthetic != "" || !pkgs[pkgOfFunc(fn)] {
+			continue
+		}
+		for _, cs := range callsOf(fn) {
+			name := cs.calleeName()
+			switch name {
+			case "strings.Trim", "strings.TrimLeft", "strings.TrimRight", "bytes.Trim", "bytes.TrimLeft", "bytes.TrimRight":
+			default:
+				continue
+			}
+			n++
+			args := cs.In.Common().Args
+			set, isC := constString(args[len(args)-1])
+			ok := isC
+			if isC && len([]rune(set)) > 1 {
+				for _, ch := range set {
+					if ch >= '0' && ch <= '9' || ch >= 'a' && ch <= 'z' || ch >= 'A' && ch <= 'Z' {
+						ok = false
+					}
+				}
+			}
+			r.add("R-T", "cutset|"+fnDisplay(fn)+"|"+name+"|"+fmt.Sprintf("%q", set), p.ipos(cs.In), fmt.Sprintf("%s with cutset %q", name, set), ok,
+				"the cutset is a set of characters, not a suffix/prefix: more is stripped than intended and distinct values become equal")
+		}
+	}
+	r.note("R-T: %d Trim/TrimLeft/TrimRight calls in scope", n)
+}
